@@ -245,7 +245,9 @@ def run(vc):
                     to_z(post_idx, I) == z3.If(member_r, L(pre_idx), pre_idx), meta=dict(part="reindex-res", element=element_type),
                     note=f"res_{element_type} rows of re-indexed elements carry the new index (result indices stay a subset of the element indices)")
             check(sw, "element", "et", code, "switch.element")
-            check(meas, "element", "element_type", element_type if element_type in ("line", "trafo", "trafo3w") else None, "measurement.element")
+            # measurements can be placed at branches and at bus elements (create_measurement): every measurement of the re-indexed
+            # element type follows (the expectation used to be copied from the code, which only re-targeted branch measurements)
+            check(meas, "element", "element_type", element_type, "measurement.element")
             check(poly, "element", "et", element_type, "poly_cost.element")
             check(pwl, "element", "et", element_type, "pwl_cost.element")
         vc.explore(f"reindex_elements[{element_type}]", h_re, max_paths=200)
